@@ -124,6 +124,11 @@ type SuccessPath struct {
 	// FromCall: the possibly-nil error is the result of this call (`return helper(...)` or
 	// `err := helper(...); return err`): the guard may have been passed inside the helper.
 	FromCall ssa.CallInstruction
+	// Uncertain: the returned value is neither the constant nil nor the result of a call the
+	// gate can look into (a field of a result struct, an element, a value read from a global):
+	// whether it is nil where it is returned is not known - a refusal is commonly reported this
+	// way (`if !res.Allowed { return res.Err }`).
+	Uncertain bool
 }
 
 // SuccessFn decides whether a Return can be a "success" return given that control arrives
@@ -231,6 +236,18 @@ func successPathsOf(v ssa.Value, r *ssa.Return, b *ssa.BasicBlock, reachable map
 		sp := SuccessPath{Ret: r}
 		if c, _ := CallOf(ov); c != nil {
 			sp.FromCall = c
+		} else if !isNilConst(ov) {
+			switch x := ov.(type) {
+			case *ssa.UnOp:
+				if _, isField := x.X.(*ssa.FieldAddr); isField && x.Op == token.MUL {
+					sp.Uncertain = true
+				}
+				if _, isIdx := x.X.(*ssa.IndexAddr); isIdx && x.Op == token.MUL {
+					sp.Uncertain = true
+				}
+			case *ssa.Field, *ssa.Lookup, *ssa.Index:
+				sp.Uncertain = true
+			}
 		}
 		return []SuccessPath{sp}
 	}
@@ -566,6 +583,16 @@ func (c *Ctx) CheckGate(rule string, fn *ssa.Function, fnName string, g Guard, s
 	c.Count("guard_sites", len(r.Sites)+r.TailSites)
 	if len(r.Escapes) > 0 {
 		var parts []string
+		allUncertain := true
+		for _, e := range r.Escapes {
+			if !e.Uncertain {
+				allUncertain = false
+			}
+		}
+		if allUncertain {
+			c.add(rule, construct, c.P.Pos(InstrPos(r.Escapes[0].Ret)), Undecided, fmt.Sprintf("%s returns, before %s, an error value read from a field or element (return at %s): whether it can be nil there was not traced", fnName, g.Name, c.P.Pos(InstrPos(r.Escapes[0].Ret))))
+			return false
+		}
 		for _, e := range r.Escapes {
 			s := "return at " + c.P.Pos(InstrPos(e.Ret))
 			if e.Via != nil {
